@@ -20,7 +20,7 @@ RULE = (
     "Hypothesis-generated cases: commit_type spelling drawn from {None, 'full', 'links_only', 'none' in lower/upper/mixed "
     "case, 'FULL', 'LINK_ONLY', 'NO_COMMIT', 'link_only', 'no_commit'}, value in {str, bytes, None, picklable}, operation list "
     "over {keep, change code + keep (fresh process, or the same process and store object, also changing back to an earlier version), load, reopen in a fresh process, rewrite the blob metadata to the legacy reference of the "
-    "same kind (dbfs.string / dbfs.bytes / dbfs.pickle; also reduced to the codec reference alone), second path kept with the same function}. After every step the tree "
+    "same kind (dbfs.string / dbfs.bytes / dbfs.pickle; also reduced to the codec reference alone), blob metadata torn to nothing before a keep, a second live process that analyses the code before the result exists and reads it afterwards, second path kept with the same function}. After every step the tree "
     "under the fake DBFS root is compared with the commit type: 'full' = byte-identical copy at <data>/<path> + redirect record "
     "<data>/_dds_meta/<path> naming the key; 'links only' = record only; 'none' = nothing under <data>; keep always returns the "
     "right value; load returns it iff the record exists. Also the local store's legacy reference default.pandas_local. "
@@ -83,7 +83,7 @@ def case_strategy():
         st.tuples(st.integers(-3, 3), st.text(max_size=3)).map(lambda t: {"k": "pickle", "v": enc(t)}),
     )
     op = st.sampled_from(["keep", "rekeep", "load", "reopen", "legacy", "keep_both", "keep", "new_view", "faulty_keep", "same_once", "same_twice",
-                          "rekeep_live", "revert_live", "rekeep_live", "revert_live", "legacy_min"])
+                          "rekeep_live", "revert_live", "rekeep_live", "revert_live", "legacy_min", "probe_other", "torn_meta"])
 
     @st.composite
     def gen(draw):
@@ -271,6 +271,47 @@ def check_case(case, ev=None, scratch=None):
                 do_load(when)
                 stats["rekeep"] += 1
                 stats["live"] = stats.get("live", 0) + 1
+            elif op == "probe_other":
+                # a second live process on the same directories analyses the new code (probing blobs that do not exist yet)
+                # before the first one keeps it, and reads the result afterwards
+                ver = (ver + 1) % 3
+                mt[0] += 10
+                write_sources(root, ver, mt[0])
+                w2 = proc.Worker()
+                try:
+                    w2.call("init", root=root, accepted=["pk"], store=None)
+                    err = w2.call("call", module="vf.props.c19", func="_open", args=[case, store_dir, values, "dbfs:/" + view[0]])
+                    if err:
+                        raise Violation(f"{what}: {when}: second process: set_store failed: {err}", case)
+                    r = w2.call("eval", module="pk.m0", func="f", style="eval", opts={"dds_stages": ["analysis"], "dds_extra_debug": True})
+                    if r["exc"] is not None:
+                        raise Violation(f"{what}: {when}: analysis-only run in the second process raised {r['exc']['type']}: {r['exc']['msg'][:200]}", case)
+                    start()
+                    do_keep("f", ["/out/v"], when)
+                    stats["rekeep"] += 1
+                    if case["commit"] != "none":
+                        r = w2.call("load", path="/out/v")
+                        if r["exc"] is not None or not same(r["value"], values[ver]):
+                            raise Violation(f"{what}: {when}: the second process (which had analysed the code before the result existed) loads "
+                                            f"{r['exc']['type'] if r['exc'] else short(r['value'])}, the first process kept {short(values[ver])}", case)
+                    r = w2.call("eval", module="pk.m0", func="f", style="direct")
+                    if r["exc"] is not None or not same(r["value"], values[ver]):
+                        raise Violation(f"{what}: {when}: keep in the second process gave {r['exc'] or short(r['value'])}, expected {short(values[ver])}", case)
+                    if "f" in r["log"]:
+                        raise Violation(f"{what}: {when}: the second process recomputed a result that the first one had stored", case)
+                finally:
+                    w2.close()
+            elif op == "torn_meta":
+                # the metadata of the blob of /out/v is cut to nothing (a writer died in the middle of it): the next keep repairs the blob
+                if "/out/v" not in committed:
+                    continue
+                mp = os.path.join(dbroot, "internal", "blobs", committed["/out/v"][0] + ".meta")
+                if not os.path.exists(mp):
+                    continue
+                open(mp, "w").close()   # only the blob that the next step keeps again
+                start()
+                do_keep("f", ["/out/v"], when + " (after the blob metadata was torn)")
+                do_load(when)
             elif op == "load":
                 do_load(when)
                 if stats["legacy"]:
